@@ -3,14 +3,14 @@
 //! One inductive step of the four real `ConnectivityStates::update_from_*` methods from an ARBITRARY state
 //! over three exchanges (6 symbolic health flags) satisfying the invariant
 //! `global == Healthy  <=>  every market-data and account link is Healthy`.
-use crate::proof;
+use crate::{gens::*, proof};
 use barter::engine::state::connectivity::{ConnectivityState, ConnectivityStates, Health};
 use barter_instrument::exchange::{ExchangeId, ExchangeIndex};
 
 const EXCHANGES: [ExchangeId; 3] = [ExchangeId::BinanceSpot, ExchangeId::Kraken, ExchangeId::Okx];
 
 fn any_health() -> Health {
-    if kani::any() { Health::Healthy } else { Health::Reconnecting }
+    if any_bool() { Health::Healthy } else { Health::Reconnecting }
 }
 
 fn all_healthy(flags: &[(Health, Health); 3]) -> bool {
@@ -57,8 +57,7 @@ proof! {
         let flags: [(Health, Health); 3] = [(any_health(), any_health()), (any_health(), any_health()), (any_health(), any_health())];
         let global = if all_healthy(&flags) { Health::Healthy } else { Health::Reconnecting };
         let mut state = state_from(&flags, global);
-        let x: usize = kani::any();
-        kani::assume(x < 3);
+        let x = any_usize_lt(3);
         state.update_from_market_event(&EXCHANGES[x]);
         let after = read_flags(&state);
         let mut expected = flags;
@@ -81,8 +80,7 @@ proof! {
         let flags: [(Health, Health); 3] = [(any_health(), any_health()), (any_health(), any_health()), (any_health(), any_health())];
         let global = if all_healthy(&flags) { Health::Healthy } else { Health::Reconnecting };
         let mut state = state_from(&flags, global);
-        let x: usize = kani::any();
-        kani::assume(x < 3);
+        let x = any_usize_lt(3);
         state.update_from_account_event(&ExchangeIndex(x));
         let after = read_flags(&state);
         let mut expected = flags;
@@ -105,9 +103,8 @@ proof! {
         let flags: [(Health, Health); 3] = [(any_health(), any_health()), (any_health(), any_health()), (any_health(), any_health())];
         let global = if all_healthy(&flags) { Health::Healthy } else { Health::Reconnecting };
         let mut state = state_from(&flags, global);
-        let x: usize = kani::any();
-        kani::assume(x < 3);
-        let market: bool = kani::any();
+        let x = any_usize_lt(3);
+        let market = any_bool();
         let mut expected = flags;
         if market {
             state.update_from_market_reconnecting(&EXCHANGES[x]);
@@ -136,9 +133,8 @@ proof! {
         let flags: [(Health, Health); 3] = [(any_health(), any_health()), (any_health(), any_health()), (any_health(), any_health())];
         let global = if all_healthy(&flags) { Health::Healthy } else { Health::Reconnecting };
         let mut state = state_from(&flags, global);
-        let x: usize = kani::any();
-        kani::assume(x < 3);
-        let market: bool = kani::any();
+        let x = any_usize_lt(3);
+        let market = any_bool();
         if market {
             state.update_from_market_reconnecting(&EXCHANGES[x]);
             state.update_from_market_event(&EXCHANGES[x]);
